@@ -62,6 +62,33 @@ LaneVal(d, mem, k, s, idx) == mem[Addr(d, k, s, idx)]
    the property does not order lanes) and every other cell is unchanged. *)
 CellOk(op, dc, nl, sc, ic, x, cell, av, bv) == \E k \in LanesAt(dc, nl, sc, ic, x) : ResultOk(op, cell, av[k + 1], bv[k + 1])
 
+(* ---- aliasing.  Callers use these helpers in place.  The meaning of a call does not change when arguments overlap
+   in one of the following ways, because lane k of the result depends on lane k of the operands only and a by-value
+   (broadcast) argument is the value it had at call entry:  in every mode lane k of the result is Expected(op, a_k, b_k)
+   evaluated on the operand values held BEFORE the call.
+     "none"  result and operands are disjoint objects
+     "sc"    the broadcast scalar argument is an lvalue inside the result array, the cell of result lane aj
+     "sa"    the broadcast scalar argument is an element of the other operand's array, the cell of its lane aj
+     "ca"    the result IS operand a: same array (or the same register variable), same stride / index list
+     "cb"    the result IS operand b, likewise
+   Partial overlaps with different address maps are outside the property. *)
+AliasModes == {"none", "sc", "sa", "ca", "cb"}
+Other(o) == IF o = "a" THEN "b" ELSE "a"
+ScalarOperands(r) == {o \in {"a", "b"} : r[o].kind = "scalar"}
+AliasAllowed(r, m) ==
+  CASE m = "none" -> TRUE
+    [] m = "sc" -> ScalarOperands(r) # {} /\ r.c.kind \in MemKinds
+    [] m = "sa" -> \E o \in ScalarOperands(r) : r[Other(o)].kind \in MemKinds
+    [] m = "ca" -> r.a.kind = r.c.kind /\ r.c.kind \in MemKinds \cup {"reg"}
+    [] m = "cb" -> r.b.kind = r.c.kind /\ r.c.kind \in MemKinds \cup {"reg"}
+    [] OTHER -> FALSE
+
+(* Which result cells must differ from their pre-call content?  pre[k + 1] is the word the cell of result lane k is known
+   to have held before the call (an operand word, in the alias modes) or <<>> when the cell held a pre-fill that is known
+   to differ from anything written (two runs with complementary pre-fills); r = the result words after the call. *)
+ChangedCells(dc, nl, sc, ic, r, pre) ==
+  IF InMemory(dc) THEN {Addr(dc, k, sc, ic) : k \in {j \in Lanes(nl) : pre[j + 1] = <<>> \/ r[j + 1] # pre[j + 1]}} ELSE {}
+
 (* ---- one table row (Overloads17 / Overloads16) *)
 RowFields == {"id", "fam", "fn", "sec", "op", "lanes", "variant", "aligned", "defined", "a", "b", "c"}
 WellFormedRow(r) ==
